@@ -1255,7 +1255,9 @@ struct RtHarness : Harness
             // end the acquisition
             const bool fullring = abort_prof && !last && g.chance(0.2);
             for (int s = 0; s < nstreams; ++s) {
-                sc[s] = gen_stream(x, s, avg_prof && g.chance(0.9),
+                sc[s] = gen_stream(x, s,
+                                   (avg_prof && g.chance(0.9)) ||
+                                     (abort_prof && g.chance(0.25)),
                                    faults && (s == 0 || g.chance(0.5)));
                 if ((abort_prof || prog_prof) && !last && g.chance(0.25))
                     sc[s].trig = 1;
@@ -1455,6 +1457,14 @@ struct RtHarness : Harness
         // enough that such waits cost thousands, not millions, of steps
         static const int64_t qs[] = { 1000, 10000, 100000 };
         p.seti("sched.quantum_ns", qs[sg.below(3)]);
+        if (fault_prof && !p.cfg.count("sched.p_stall") && sg.chance(0.5)) {
+            // fault runs are short: a thread held at an arbitrary point while
+            // the others run through an error path is what they are about
+            static const double st[] = { 0.002, 0.01, 0.03 };
+            p.setd("sched.p_stall", st[sg.below(3)]);
+            if (!p.cfg.count("sched.max_stall_ns"))
+                p.seti("sched.max_stall_ns", 5000000);
+        }
         if (p.geti("sched.max_stall_ns", 0) > 5000000 &&
             p.geti("sched.quantum_ns", 0) < 10000)
             p.seti("sched.max_stall_ns", 5000000);
@@ -2106,7 +2116,7 @@ struct Reg
            (std::string(rule_common) +
             "non-trivial = an injected device fault actually fired")
              .c_str(),
-           { { "fault", 1512, 30240, true } },
+           { { "fault", 4536, 45360, true } },
            { "fault.camera_frame_fails", "fault.storage_append_fails",
              "fault.camera_start_fails", "fault.storage_start_fails" });
         mk("C10", "exploration",
